@@ -47,6 +47,11 @@ func (c RawConfiguration) QuorumCall(ctx context.Context, d QuorumCallData) (res
 
 	for {
 		if len(errs)+len(replies) == expectedReplies {
+			if err := ctx.Err(); err != nil {
+				// the nodes were answered on behalf of the ended context
+				// (see enqueue and sendMsg); this is not an incomplete call
+				return resp, QuorumCallError{cause: err, errors: errs, replies: len(replies)}
+			}
 			return resp, QuorumCallError{cause: Incomplete, errors: errs, replies: len(replies)}
 		}
 		select {
